@@ -1079,6 +1079,17 @@ def replay(ctx, rec):
         print('implementation:', obs[1:] if obs[0] == 'err' else [[g, [x.tolist() for x in dd]] for g, dd in obs[2]])
         print('model:', mod, '(raw input: exact CPM values num/den, log2(1+.) applied by the harness)')
         return 0 if (obs[0] == 'ok') == (mod[0] == 0) else 1
+    if kind == 'outside-domain' and rec.get('relation') == 'gene-permutation':
+        arr = np.array(rec['raw'], dtype=np.dtype(rec['dtype']))
+        perm = rec['perm']
+        names = [gname(g) for g in range(arr.shape[1])]
+        a = real_log2cpm(arr, names)
+        b = real_log2cpm(arr[:, perm], [names[j] for j in perm])
+        nd = int((a[:, perm] != b).sum())
+        print(f'to_log2CPM_in_place on the raw matrix and on its column permutation {perm}: {nd} entries not bitwise equal, '
+              f'max |delta| {float(np.abs(a[:, perm].astype(np.float64) - b.astype(np.float64)).max())!r}')
+        print('row sums in file order:', arr.sum(axis=1).tolist(), ' permuted:', arr[:, perm].sum(axis=1).tolist())
+        return 1 if nd else 0
     print('paired real runs are replayed by re-running the two configurations printed above through '
           'harness.paired.run_once (tree, markers, raw matrix and both configurations are in the record)')
     return 0
